@@ -209,4 +209,16 @@ def rebind(value, definer, deriver, mode):
         return (("cells-of", deriver, cname) if dc else None), True, True
     if tspace is not None and tspace.is_in(definer):
         return value, True, False
+    if tspace is not None and definer.is_in(tspace):
+        # the target is an ancestor of the definer (or a cells of one): modelx rebinds it when the deriver's ancestors
+        # derive the definer's ancestors in parallel; the statement does not say - not judged
+        return value, True, False
+    def top(x):
+        while isinstance(x.parent, RSpace):
+            x = x.parent
+        return x
+    if tspace is not None and top(tspace) is top(definer):
+        # a sibling / cousin inside the same top-level tree: modelx rebinds it when the deriver's ancestors derive the
+        # definer's ancestors in parallel and the corresponding object exists; the statement does not say - not judged
+        return value, True, False
     return value, False, True
